@@ -125,6 +125,8 @@ def r3(ctx):
 def r4(ctx):
     lookups, iters = [], []
     for body in ctx.facts.all_bodies():
+        if ctx.facts.new_and_unreachable(body):
+            continue  # new code that validation never executes cannot consult a header on its behalf
         for bi, t in body.calls():
             if not t["args"] or not is_header_map_call(t):
                 continue
